@@ -353,6 +353,43 @@ class Prop:
                     'tb': traceback.format_exc()[-600:]}
 
 
+
+# ---- the Manager's set of pending generator tasks, found by behaviour rather than by its private name -------------
+_TASK_ATTR = {}
+
+
+def task_attr(m):
+    """name of the attribute of Manager `m` that holds the set of pending tasks (`_tasks` in the pinned source): the
+    set-valued attribute that gains the triple handed to registerTask(). Falls back to '_tasks'."""
+    key = type(m).__mro__[-2] if len(type(m).__mro__) > 1 else type(m)
+    if key in _TASK_ATTR:
+        return _TASK_ATTR[key]
+    name = '_tasks'
+    try:
+        probe = (object(), object(), None)
+        m.registerTask(probe)
+        hits = [k for k, v in vars(m).items() if isinstance(v, (set, frozenset)) and probe in v]
+        m.unregisterTask(probe)
+        if len(hits) == 1:
+            name = hits[0]
+    except Exception:       # noqa: BLE001
+        pass
+    _TASK_ATTR[key] = name
+    return name
+
+
+def get_tasks(m, default=()):
+    return getattr(m, task_attr(m), default)
+
+
+def set_tasks(m, tasks):
+    """install a double for the task set (same interface as set); returns False when the manager has no such set"""
+    name = task_attr(m)
+    if not hasattr(m, name):
+        return False
+    setattr(m, name, tasks)
+    return True
+
 def write_replay(pid, kind, payload):
     d = os.path.join(VERIF, 'replays', pid)
     os.makedirs(d, exist_ok=True)
